@@ -254,7 +254,7 @@ func init() {
 		c.only([]string{"FLAG-VALUE"}, func() { c.ruleFlagTable() })
 		c.ruleMainExit()
 		c.ruleHierarchy()
-	}, Explanation: "The 16 code constants, CodesByCategory (each code once under its own category), the documented code tables and the URL switch (each category -> an existing page that is the category's documentation page) agree; every report site carries a documented code of its analyzer's category and every code has a site; one report sink, in which the same GetCode()/GetPos() feed the ignore lookup, the `[code] message` header, the help URL and the diagnostic position; positions come from nodes (or annotations) of filtered files; main hands all eight analyzers to multichecker.Main and nothing else terminates the process."})
+	}, Explanation: "The 16 code constants, CodesByCategory (each code once under its own category), the documented code tables and the URL switch (each category -> an existing page that is the category's documentation page) agree; every report site carries a documented code of its analyzer's category and every code has a site; one report sink, in which the same GetCode()/GetPos() feed the ignore lookup, the `[code] message` header, the help URL and the diagnostic position; positions come from nodes (or annotations) of filtered files; main hands all eight analyzers to multichecker.Main and nothing else terminates the process. Which files the command line excludes: each setting is the value of its flag on every path of ParseFlagsFromFlagSet (FLAG-VALUE; KF-C18-1 as it affects C17)."})
 }
 
 func init() {
@@ -269,7 +269,7 @@ func init() {
 		c.ruleLangEq("@implements")
 		c.ruleAttach("@implements")
 		c.ruleReportGate("implements")
-	}, Explanation: "Cascade of the three IMPL sites (IMPL01 iff the annotation's qualifier is unresolved; IMPL02 iff resolved and the key PackageFullPath.InterfaceName is not among the loaded interfaces; IMPL03 iff both found and checkImplementation(type, interface, ann.IsPointer) is non-empty, listing exactly that result); qualifier resolution: the package recorded for an import spec is PkgNameOf(spec).Imported(), resolution order alias > declared name > exact path > last path element, empty qualifier = current package; shape of the existing structural matcher (all four components compared, counts and every pair compared, every interface method examined, & = all methods / no & = value receivers). TYPE-IDENT / METHOD-SET (the verdict must be decided by go/types identity and the real method set of T, not by renderings of types and a receiver-kind filter) fail on today's tree: six recorded known findings (D11); any other violation is reported."})
+	}, Explanation: "Cascade of the three IMPL sites (IMPL01 iff the annotation's qualifier is unresolved; IMPL02 iff resolved and the key PackageFullPath.InterfaceName is not among the loaded interfaces; IMPL03 iff both found and checkImplementation(type, interface, ann.IsPointer) is non-empty, listing exactly that result); qualifier resolution: the package recorded for an import spec is PkgNameOf(spec).Imported(), resolution order alias > declared name > exact path > last path element, empty qualifier = current package; shape of the existing structural matcher (all four components compared, counts and every pair compared, every interface method examined, & = all methods / no & = value receivers). TYPE-IDENT / METHOD-SET (the verdict must be decided by go/types identity and the real method set of T, not by renderings of types and a receiver-kind filter) fail on today's tree: six recorded known findings (D11); any other violation is reported. Inside the known receiver-kind approximation the kind recorded for a method is computed from Signature.Recv() of that method on every path (METHOD-SET/RECV-KIND)."})
 }
 
 func init() {
@@ -304,7 +304,7 @@ func init() {
 		// positions of different files are ordered by parse scheduling: a decision that assumes an insertion order
 		// of markers differs between runs
 		c.only([]string{"LOOP-COMPLETE"}, func() { c.ruleIgnoreSetContains() })
-	}, Explanation: "No goroutine, channel, atomic or WaitGroup in product code; package-level state is written only at initialisation, except the configuration cache written once inside sync.Once.Do and read after it; every object shared between concurrently running actions (package-level matchers/regexps/tables, the annotation result, the ignore set, the configuration, imported facts) is only read - write effects computed on the callee bodies including the Aho-Corasick dependency (Contains is read-only, Match is not); the body of every range over a map is order-independent accumulation, maps.Keys / Values / All are consumed by a sort only; no field of a syntax node of the pass is assigned (the trees are shared by the analyzers of a package); the tool identity go vet keys its cache on covers the configuration variables (TOOL-ID); no clock, randomness, pointer formatting, and no environment read outside package config; no loop of IgnoreSet.Contains is left early without a match, so the answer does not depend on the order in which the files of a package were registered in the FileSet."})
+	}, Explanation: "No goroutine, channel, atomic or WaitGroup in product code; package-level state is written only at initialisation, except the configuration cache written once inside sync.Once.Do and read after it; every object shared between concurrently running actions (package-level matchers/regexps/tables, the annotation result, the ignore set, the configuration, imported facts) is only read - write effects computed on the callee bodies including the Aho-Corasick dependency (Contains is read-only, Match is not); the body of every range over a map is order-independent accumulation, maps.Keys / Values / All are consumed by a sort only; no field of a syntax node of the pass is assigned (the trees are shared by the analyzers of a package); the tool identity go vet keys its cache on covers the configuration variables (TOOL-ID); no clock, randomness, pointer formatting, and no environment read outside package config; no loop of IgnoreSet.Contains is left early without a match, so the answer does not depend on the order in which the files of a package were registered in the FileSet. No in-place library mutator (sort.*, slices.Sort*, slices.Reverse, copy) is applied to a slice handed out by go/types, go/ast, go/token or the pass; FileSet.Base / Iterate are not used (the shared file set grows in parse order)."})
 	registerProp(&propDef{ID: "C12", Rules: func(c *Ctx) {
 		c.ruleWalkState("immutable", "constructor", "testonly", "packageonly")
 		c.ruleWalkRoot("immutable", "constructor", "testonly", "packageonly")
@@ -338,7 +338,7 @@ func init() {
 		// in which file of its package an annotated declaration stands decides the order in which the containers are
 		// filled: a mutated copy is stored back whether or not an earlier annotation created the inner maps
 		c.ruleCopyWriteback("util")
-	}, Explanation: "Nothing a walk callback (or what it calls) writes outlives the visit of one node except append-only accumulators and per-file dedup maps created inside the file loop; context fields read during a walk are re-assigned on every path of each iteration before the walk; walk roots are all top-level declarations / whole filtered files with no filter in between; no pruning except the @testonly FuncDecl prune decided on the declaration's own name; ordered position comparisons and line/column numbers occur only in scope computation and rendering; readers carry no state between declarations (doc selection per spec); identity is by object (receiver, direct callee), not by spelling."})
+	}, Explanation: "Nothing a walk callback (or what it calls) writes outlives the visit of one node except append-only accumulators and per-file dedup maps created inside the file loop; context fields read during a walk are re-assigned on every path of each iteration before the walk; walk roots are all top-level declarations / whole filtered files with no filter in between; no pruning except the @testonly FuncDecl prune decided on the declaration's own name; ordered position comparisons and line/column numbers occur only in scope computation and rendering; readers carry no state between declarations (doc selection per spec); identity is by object (receiver, direct callee), not by spelling. Which placement an @ignore comment has is decided by positions, not by comment-group attachment (SCOPE/*); the scope end of a stand-alone comment is that of the next node of the enclosing declaration (SCOPE-END)."})
 	registerProp(&propDef{ID: "C13", Rules: func(c *Ctx) {
 		c.ruleAliasAll()
 		c.ruleTypeInfoHelpers()
@@ -361,7 +361,7 @@ func init() {
 			c.ruleSitesTONL()
 			c.ruleSitesPKGO()
 		})
-	}, Explanation: "Every assertion from types.Type to a concrete go/types node in product code is made on an un-aliased operand (types.Unalias / Underlying / Func.Type) - five reviewed exceptions in package implements with one line of reason each (two of them part of known finding KF-C05-1; two former entries were wrong and hid defects D15/D16, now repaired); the pointer strip happens on the un-aliased value and its element is un-aliased again (sites and util helpers); use-site types come from TypesInfo; a @packageonly type reference is resolved through type aliases to the defined type before it is looked up (D18); the only spelling-based type reader is the receiver of a method declaration."})
+	}, Explanation: "Every assertion from types.Type to a concrete go/types node in product code is made on an un-aliased operand (types.Unalias / Underlying / Func.Type) - five reviewed exceptions in package implements with one line of reason each (two of them part of known finding KF-C05-1; two former entries were wrong and hid defects D15/D16, now repaired); the pointer strip happens on the un-aliased value and its element is un-aliased again (sites and util helpers); use-site types come from TypesInfo; a @packageonly type reference is resolved through type aliases to the defined type before it is looked up (D18); the only spelling-based type reader is the receiver of a method declaration. An alias of a pointer type is resolved to the type pointed to in the @packageonly path as well; the annotations of every direct import with a fact are merged however the import is written (ITER-PACKAGES/IMPORTS)."})
 }
 
 func (c *Ctx) ruleIgnoreScopeLineUnadj() { c.scopeInline() }
